@@ -285,7 +285,7 @@ Theorem ser_ok_gen prot i data lim :
   mode_ok prot i = true -> (count_item i <= lim)%nat -> Z.of_nat (length data + length (enc_item i)) <= max_size ->
   ser prot i (data, lim) = Some (data ++ enc_item i, (lim - count_item i)%nat).
 Proof. apply ser_ok_all. Qed.
-(* complete characterisation: the mode admits the constructors, the item budget and the size suffice *)
+(* complete characterisation: the mode lets_in the constructors, the item budget and the size suffice *)
 Theorem ser_spec_gen prot i data lim :
   ser prot i (data, lim) =
   if mode_ok prot i && (count_item i <=? lim)%nat && (Z.of_nat (length data + length (enc_item i)) <=? max_size)
